@@ -1050,7 +1050,8 @@ result_t NumberDataType::readFromRawValue(unsigned int value,
     }
     if (!negative) {
       if (m_divisor < 0) {
-        *output << (static_cast<float>(value) * static_cast<float>(-m_divisor));
+        *output << fixed << setprecision(0)
+                << (static_cast<float>(value) * static_cast<float>(-m_divisor));
       } else if (m_divisor <= 1) {
         *output << value;
       } else {
